@@ -28,7 +28,7 @@ from elementpath.protocols import ElementProtocol, XsdElementProtocol, \
     SchemaElemType, CommentType, ProcessingInstructionType
 from elementpath.helpers import match_wildcard, is_absolute_uri
 from elementpath.decoder import get_atomic_sequence
-from elementpath.etree import etree_iter_strings, is_etree_element_instance
+from elementpath.etree import etree_iter_text, is_etree_element_instance
 
 __all__ = ['XPathNodeTree', 'XPathNode', 'NamespaceNode', 'AttributeNode', 'TextAttributeNode',
            'SchemaAttributeNode', 'TextNode', 'CommentNode', 'ProcessingInstructionNode',
@@ -1171,9 +1171,9 @@ class EtreeElementNode(ElementNode):
     def string_value(self) -> str:
         if self.xsd_type is not None and self.xsd_type.is_element_only():
             # Element-only text content is normalized
-            return ''.join(etree_iter_strings(self.value, normalize=True))
+            return ''.join(etree_iter_text(self.value, normalize=True))
 
-        return ''.join(etree_iter_strings(self.value)) or \
+        return ''.join(etree_iter_text(self.value)) or \
             getattr(self.xsd_element, 'value_constraint', None) or ''
 
     @property
@@ -1181,7 +1181,7 @@ class EtreeElementNode(ElementNode):
         if self.xsd_type is None or \
                 self.xsd_type.name in _XSD_SPECIAL_TYPES or \
                 self.xsd_type.has_mixed_content():
-            yield UntypedAtomic(''.join(etree_iter_strings(self.value)))
+            yield UntypedAtomic(''.join(etree_iter_text(self.value)))
         elif self.xsd_type.is_element_only():
             return
         elif self.nilled and getattr(self.xsd_element, 'nillable', None):
@@ -1196,7 +1196,7 @@ class EtreeElementNode(ElementNode):
 
     @property
     def compat_string_value(self) -> str:
-        return ''.join(etree_iter_strings(self.value))
+        return ''.join(etree_iter_text(self.value))
 
     def apply_schema(self, schema: ta.SchemaProxyType) -> None:
         if self.tree.schema is schema and self.xsd_type is not None \
@@ -1778,7 +1778,7 @@ class EtreeDocumentNode(DocumentNode):
             root = self.value.getroot()
             if root is None:
                 return ''
-            return ''.join(etree_iter_strings(root))
+            return ''.join(etree_iter_text(root))
         return ''.join(child.string_value for child in self.children
                        if isinstance(child, (ElementNode, TextNode)))
 
